@@ -11,6 +11,7 @@ import (
 	"github.com/ory/keto/verif/ev"
 	"github.com/ory/keto/verif/memstore"
 	"github.com/ory/keto/verif/refsem"
+	"github.com/ory/keto/verif/sqlfault"
 	"github.com/ory/keto/verif/vsched"
 )
 
@@ -32,7 +33,7 @@ func TestC03(t *testing.T) {
 		leaves = []int{LIncA, LIncB, LTrvAP, LTrvAB, LPermQ}
 	}
 	var cov struct {
-		triples, hit, changed, scenarios, schedRuns, batchRuns, reorderScen int
+		triples, hit, changed, scenarios, schedRuns, batchRuns, reorderScen, sqlScen, sqlTriples int
 		complete                                               bool
 	}
 	cov.complete = true
@@ -108,6 +109,69 @@ func TestC03(t *testing.T) {
 			}
 		}
 	}
+	// SQL layer: the same engine over the REAL persister and traverser; the k-th SQL statement of the
+	// check fails inside the database/sql driver (every k, generic error and deadline exceeded).
+	{
+		tap := sqlfault.Attach("")
+		sqlLeaves := []int{LIncA, LTrvAP}
+		sqlScns := sCatalogue(2, sqlLeaves)
+		lastCfg = nil
+		for i, sc := range sqlScns {
+			if i%nshards != shard || sc.Graph == "none" || sc.Graph == "direct" {
+				continue
+			}
+			if deadlinePassed(deadline) {
+				cov.complete = false
+				break
+			}
+			if sc.Cfg != lastCfg {
+				w.SetNamespaces(t, sc.Cfg.NS)
+				lastCfg = sc.Cfg
+			}
+			rows := w.Rows(sc.Tuples)
+			q := w.Internal(sc.Query)
+			w.LoadSQL(t, rows)
+			sqlRun := func(failAt int, kerr error) (CheckOut, int) {
+				n := 0
+				hit := 0
+				tap.SetBefore(func(e *sqlfault.Event) error {
+					n++
+					if n == failAt {
+						hit++
+						return kerr
+					}
+					return nil
+				})
+				defer tap.SetBefore(nil)
+				var out CheckOut
+				out.X = vsched.Run(vsched.Config{FastBase: true}, func() {
+					ctx, cancel := vsched.WithCancel(context.Background())
+					out.Res = w.SQLEng.CheckRelationTuple(ctx, q, 0)
+					cancel()
+				})
+				out.Calls = n
+				out.Faults = hit
+				return out, n
+			}
+			base, n := sqlRun(0, nil)
+			if base.X.Outcome != "ok" || base.Res.Err != nil {
+				continue
+			}
+			cov.sqlScen++
+			for k := 1; k <= n; k++ {
+				for _, kerr := range kinds {
+					o, _ := sqlRun(k, kerr)
+					cov.sqlTriples++
+					if o.Faults > 0 && (o.Res.Err != nil || o.Res.Membership != base.Res.Membership) {
+						cov.changed++
+					}
+					judgeFault(sc, base, o, memstore.FaultPlan{At: k, Err: kerr}, "SQL statement fault", nil)
+				}
+			}
+		}
+		tap.Close()
+	}
+
 	// second pass - the failing call reordered relative to its siblings: all schedules with one
 	// deviation, for the transient generic fault at every position (the fault-free reference is the
 	// same schedule without the fault). Runs as far as the time cap allows; reported separately.
@@ -202,7 +266,9 @@ func TestC03(t *testing.T) {
 	}
 	_ = errors.New
 	run.FinishPart(map[string]any{
-		"evaluations":         cov.triples + cov.schedRuns + cov.batchRuns,
+		"evaluations":         cov.triples + cov.schedRuns + cov.batchRuns + cov.sqlTriples,
+		"sql_statement_fault_triples": cov.sqlTriples,
+		"sql_scenarios":       cov.sqlScen,
 		"distinct_nontrivial": cov.changed,
 		"rule":                "for every scenario (all permission expressions with <=2 leaves x 7 tuple graphs) the fault-free run issues N storage calls; every (k in 1..N) x {transient, persistent} x {generic, deadline-exceeded} is injected under the base schedule, and the transient fault additionally under every schedule with one deviation for a third of the scenarios as far as the time cap allows (all when thorough); non-trivial = the fault was actually hit and changed the outcome (error or different answer)",
 		"fault_triples":       cov.triples,
